@@ -105,7 +105,7 @@ z("Empty const&", "lref/object/class/empty-const")
 z("Abstract&", "lref/object/class/abstract")
 z("DelDtor&", "lref/object/class/deleted-dtor")
 z("MoveOnly&", "lref/object/class/move-only")
-z("Incomplete&", "lref/object/incomplete", align=False)
+z("Incomplete&", "lref/object/incomplete", align=False, inc=True)
 z("E&", "lref/object/enum")
 z("int(&)[3]", "lref/array/bounded")
 z("int const(&)[2]", "lref/array/bounded-const")
